@@ -21,6 +21,8 @@ DRIVER = os.path.join(LEAN, ".lake", "build", "bin", "sketchnu_model")
 EVID = os.path.join(VERIF, "evidence")
 REPLAYS = os.path.join(VERIF, "replays")
 ALLOWED_AXIOMS = {"propext", "Classical.choice", "Quot.sound"}
+TIER = "quick"  # set by check.py
+FACTOR = 1     # case-budget multiplier, raised when a modelled kernel's AST fingerprint drifted from the baseline
 FORBIDDEN = re.compile(r"\b(sorry|admit|native_decide|bv_decide|implemented_by|unsafe)\b|^axiom\s|maxHeartbeats\s+0", re.M)
 
 sys.path.insert(0, os.path.dirname(os.path.abspath(__file__)))
@@ -57,6 +59,8 @@ class LeanStatus:
         self.failed_modules = []
         self.theorems = {}  # name -> {"axioms": [...], "ok": bool}
         self.forbidden_hits = []
+        self.leanchecker = "not run (quick tier)"
+        self.drifted = []
         self.wall = 0.0
 
     def obligations(self):
@@ -141,6 +145,15 @@ def lean_check(pid, quick=True):
             r = translate.run()
             st.generated_changed = r["changed"]
             st.fingerprints = r["fingerprints"]
+            try:
+                base = json.load(open(os.path.join(VERIF, "harness", "fingerprints.json")))
+                st.drifted = sorted(k for k in set(base) | set(st.fingerprints) if base.get(k) != st.fingerprints.get(k))
+            except FileNotFoundError:
+                st.drifted = []
+            if st.drifted:
+                global FACTOR
+                FACTOR = 3
+                log(f"{len(st.drifted)} kernel fingerprint(s) drifted ({', '.join(st.drifted[:4])}…): case budgets ×{FACTOR}")
         except translate.TranslateError as e:
             st.translate_error = str(e)
         except Exception as e:  # source does not even parse
@@ -220,6 +233,13 @@ def lean_check(pid, quick=True):
                 ax = [a.strip().rstrip("]") for a in found[n].replace("]", "").split(",") if a.strip().rstrip("]")]
                 bad = [a for a in ax if a not in ALLOWED_AXIOMS]
                 st.theorems[n] = {"axioms": ax, "ok": not bad, "why": ("axioms " + ",".join(bad)) if bad else ""}
+        # thorough tier: independent re-check of the compiled property modules with leanchecker
+        if TIER == "thorough" and mods and not failed:
+            rc, out = _run(["lake", "env", "leanchecker"] + mods, cwd=LEAN, timeout=1800)
+            st.leanchecker = "ok" if rc == 0 else f"FAILED rc={rc}: {out[-500:]}"
+            if rc != 0:
+                st.failed_modules.append("leanchecker(" + ",".join(mods) + ")")
+                st.build_ok = False
     finally:
         fcntl.flock(lock, fcntl.LOCK_UN)
         lock.close()
@@ -375,6 +395,9 @@ def write_evidence(res, lean, level, extra_cov=None, assumptions=None, violation
         "generated_changed": lean.generated_changed if lean else [],
         "broken_obligations": lean.broken() if lean else ["lean not run"],
         "lean_wall_s": round(lean.wall, 1) if lean else 0,
+        "leanchecker": lean.leanchecker if lean else "",
+        "drifted_kernels": lean.drifted if lean else [],
+        "budget_factor": FACTOR,
         "notes": res.notes,
     }
     if extra_cov:
@@ -446,6 +469,11 @@ def finish(res, lean, level, search, signature_of=None, assumptions=None, extra_
     log(f"{res.pid} {res.tier}: evaluations={res.evaluations} distinct_nontrivial={len(res.distinct)} "
         f"obligations={lean.obligations() if lean else 0}/{lean.discharged() if lean else 0} rc={rc} wall={time.time()-res.t0:.1f}s")
     return rc
+
+
+def B(x):
+    """scale a case count / time budget by the drift factor"""
+    return x * FACTOR
 
 
 def rng_for(seed, name):
